@@ -1,4 +1,5 @@
 import ShpanVerif.Drive.PipeCommon
+import ShpanVerif.Drive.PipeDyn
 import ShpanVerif.Drive.C04Ext
 /-
 Driver handler for C04: fault-free single materialisations of ordered pipelines vs the list model.
@@ -56,6 +57,7 @@ def evalLooseList : PipeList → Option (List (List V))
 end
 
 def handle (c obs : String) : String × Bool × String :=
+  if c.startsWith "DYN " then ShpanVerif.Drive.PipeDyn.handle c obs else   -- FlatMap family (Model/PipeDyn.lean)
   if c.startsWith "L " then ShpanVerif.Drive.C04Ext.handle c obs else   -- second part of the family
   match parseCase c with
   | none => ("bad-case", false, "unparsable case")
